@@ -83,7 +83,36 @@ type pnet struct {
 
 var pnetMu sync.Mutex // MakeSwitch picks free TCP ports: one net at a time
 
-func newPnet(k int, wrapped bool) *pnet {
+// retryBind runs f again when it panics on a lost race for a free TCP port ("address already in
+// use": the port is picked first and bound later, by MakeSwitch as well as here)
+func retryBind(f func()) {
+	for attempt := 0; ; attempt++ {
+		again := false
+		func() {
+			defer func() {
+				if r := recover(); r != nil {
+					if attempt < 8 && strings.Contains(fmt.Sprint(r), "address already in use") {
+						again = true
+						return
+					}
+					panic(r)
+				}
+			}()
+			f()
+		}()
+		if !again {
+			return
+		}
+		time.Sleep(20 * time.Millisecond)
+	}
+}
+
+func newPnet(k int, wrapped bool) (n *pnet) {
+	retryBind(func() { n = newPnet1(k, wrapped) })
+	return n
+}
+
+func newPnet1(k int, wrapped bool) *pnet {
 	pnetMu.Lock()
 	defer pnetMu.Unlock()
 	c := tmcfg.DefaultP2PConfig()
